@@ -25,7 +25,10 @@ import (
 // The handler wrapper mirrors the generated one (template_server.go): type-assert the request,
 // defer ctx.Release(), call the implementation, SendMessage(WrapMessage(...)).
 
-var vErrDisconnected = errors.New("verif: client disconnected")
+var (
+	vErrDisconnected = errors.New("verif: client disconnected")
+	vErrPlain        = errors.New("verif plain failure")
+)
 
 type vSrvStream struct {
 	grpc.ServerStream // nil: only Context/SendMsg/RecvMsg are used by the library
@@ -89,6 +92,7 @@ const (
 	c04ReleaseTwice
 	c04ReleaseHelper
 	c04StatusError
+	c04PlainError
 	c04NeverRelease
 	c04UnknownMethod
 	c04NBehaviours
@@ -187,7 +191,10 @@ func VerifC04(conns, reqs, allowNever, allowDisconnect int) {
 				if m.Metadata.MessageID == id {
 					found++
 					st := status.FromProto(m.Metadata.GetStatus())
-					if b == c04StatusError {
+					if b == c04PlainError {
+						// a non-status error arrives as Unknown with its text
+						vAssert(st.Code() == codes.Unknown && st.Message() == "verif plain failure", "C13.plain-error-wrapped")
+					} else if b == c04StatusError {
 						// any status code (a symbolic 32 bit value) travels unchanged; OK means "no error"
 						vAssert(st.Code() == codes.Code(g.codes[c][k]), "C13.handler-status-code")
 						vAssert(g.codes[c][k] == 0 || st.Message() == "verif denied", "C13.handler-status-message")
@@ -266,6 +273,10 @@ func c04Impl(g *c04Ghost, ctx ServerCtx, req *vMsg) (*vMsg, error) {
 		<-donech
 		g.done(c, k)
 		return resp, nil
+	case c04PlainError:
+		release()
+		g.done(c, k)
+		return nil, vErrPlain
 	case c04StatusError:
 		release()
 		g.done(c, k)
